@@ -181,6 +181,7 @@ func runC06(c *Ctx) {
 	r.Rule("R4", "store false dominates the DISCONNECTED dispatch; store true dominates every success return of the connect routine")
 	r.Rule("R5", "in the connect routine every write to per-connection state (socket, buffered I/O, queues, cancel func; directly or through callees), every tracker mutation and every go statement is dominated by the not-already-connected and server-non-empty edges; no dispatch is reachable from it")
 	r.Rule("R6", "on the flag-false path of the teardown there are no stores and no calls other than the unlock")
+	r.Rule("R7", "the wait that precedes DISCONNECTED terminates as far as accounting goes: WaitGroup.Add constants equal the member spawns on every path and every member goroutine calls Done exactly once on each of its exits (a missed Done means DISCONNECTED is never delivered, a double Done panics)")
 	funcs := c.clientFuncs()
 	ls := c.ComputeLocksets(funcs)
 	const mu = "client.Conn.mu"
@@ -315,6 +316,7 @@ func runC06(c *Ctx) {
 
 	// ---- R5
 	c.connectInertRule("R5")
+	c.wgAccounting("R7")
 
 	// ---- R6
 	if len(loads) == 1 {
@@ -1022,6 +1024,52 @@ func runC07(c *Ctx) {
 					r.Add("R1", "teardown-blocks:"+c.FuncKey(fn)+":Wait", c.InstrPos(in), c.FuncKey(fn), "the teardown waits only for the connection's own goroutines", false, "Wait on another WaitGroup ("+recv.Name()+"): whatever it waits for is not released by the teardown")
 				}
 			}
+			// socket I/O by the teardown itself: nothing releases it (the teardown is the releaser), so it may only
+			// happen once the socket is closed, when it fails at once
+			cc := callOf(in)
+			if cc == nil {
+				return
+			}
+			if _, isGo := in.(*ssa.Go); isGo {
+				return
+			}
+			var all []ssa.Value
+			if cc.IsInvoke() {
+				all = append(all, cc.Value)
+			}
+			all = append(all, cc.Args...)
+			io := false
+			for _, arg := range all {
+				if c.derivesFromField(arg, a.IO) || c.derivesFromField(arg, a.Sock) {
+					io = true
+				}
+			}
+			if !io {
+				return
+			}
+			short := calleeShort(cc)
+			switch {
+			case strings.HasSuffix(short, "Close"), strings.Contains(short, "Deadline"), strings.HasSuffix(short, "Addr"), strings.HasSuffix(short, "Buffered"), strings.HasSuffix(short, "Available"):
+				return // the release itself, or a call that does not wait for the peer
+			}
+			if cal := cc.StaticCallee(); cal != nil && c.InModuleFn(cal) {
+				return // module helper: its own socket operations are examined where they occur
+			}
+			closed := false
+			funcInstrs(fn, func(x ssa.Instruction) {
+				if xc := callOf(x); xc != nil && strings.HasSuffix(calleeShort(xc), "Close") {
+					if _, isDefer := x.(*ssa.Defer); isDefer {
+						return
+					}
+					for _, arg := range append([]ssa.Value{xc.Value}, xc.Args...) {
+						if arg != nil && c.derivesFromField(arg, a.Sock) && instrDominates(x, in) {
+							closed = true
+						}
+					}
+				}
+			})
+			r.Add("R1", "teardown-blocks:"+c.FuncKey(fn)+":"+short, c.InstrPos(in), c.FuncKey(fn), "the teardown does no socket I/O before it has closed the socket", closed,
+				"socket I/O "+short+" in the teardown path is not preceded by the socket close: a peer that stopped reading blocks it, and with it the disconnect, forever")
 		})
 	}
 	r.Floor("R1", "blocking operations classified in the awaited region", nOps, 10)
@@ -1227,6 +1275,13 @@ func (c *Ctx) goCensus(rule string, tf *teardownFacts) {
 		})
 	}
 	r.Floor(rule, "go statements in package client", nGo, 7)
+	c.wgAccounting(rule)
+}
+
+// wgAccounting: the connection WaitGroup drains - Add constants equal member
+// spawns on every path and each member does exactly one Done per exit.
+func (c *Ctx) wgAccounting(rule string) {
+	r, a := c.R, c.A
 	// Add/spawn balance in spawners of members
 	for _, fn := range c.clientFuncs() {
 		spawns := false
